@@ -279,12 +279,19 @@ pub fn gen_query(rng: &mut Rng, faults: bool) -> Op {
 }
 
 pub fn gen_mod(rng: &mut Rng) -> Op {
-    let name = match rng.below(8) {
+    let name = match rng.below(10) {
         0 => "m.ring2",
         1 | 2 => "m.divisor",
+        3 | 4 => "m.half",
         _ => "m.ring",
     };
-    Op::new(name).a(slot(rng)).b(slot(rng)).c(slot(rng)).dst(slot(rng)).n(rng.below(14) as i64).m(rng.below(200) as i64)
+    let mut op = Op::new(name).a(slot(rng)).b(slot(rng)).c(slot(rng)).dst(slot(rng)).n(rng.below(14) as i64).m(rng.below(200) as i64).form(rng.below(5));
+    if name == "m.half" && rng.chance(2, 3) {
+        // own modulus: a multiple of 64 bits half of the time (then there is no normalisation shift)
+        let bits = if rng.chance(1, 2) { 64 * (3 + rng.below(if cfg!(miri) { 2 } else { 8 }) as usize) } else { gen_bits(rng, false).max(130) };
+        op.lit = gen_lit_bits(rng, bits);
+    }
+    op
 }
 
 pub fn prim_value(rng: &mut Rng) -> (i64, i64) {
